@@ -125,6 +125,14 @@ MCNext == Next /\\ want' = WantOf(base', cur', okv')
     ctx.add_tlc('Tags machine: action properties (implicit keeps the shape, explicit adds one constructed tag, UNIVERSAL refused)', r2)
     if not r2.ok:
         raise core.Machinery('Tags properties failed: %s %s\n%s' % (r2.violated, r2.errors[:2], r2.out[-1500:]))
+    st, x, secs = tlc.tlaps(sc, 'TagsProofs', ['Tags'])
+    if st == 'proved':
+        ctx.extra['tlaps'] = ('ImplicitReplacesOnlyTheOutermost and ExplicitAddsOneConstructedTag proved by tlapm for tag sets of any '
+                              'length and any tag (%d obligations, %.0f s)' % (x, secs))
+    elif st == 'failed':
+        raise core.Machinery('TLAPS: proof obligations of TagsProofs failed:\n' + x)
+    else:
+        ctx.extra['tlaps'] = 'not discharged in this run (%s)' % x
     states = list(tlaval.parse_dump(open(dump).read()))
     os.remove(dump)
     states.sort(key=lambda s: json.dumps(s, sort_keys=True))
